@@ -2228,10 +2228,10 @@ impl Compiler {
                 Some(result_register) => ResultRegister::Fixed(result_register),
                 _ => ResultRegister::None,
             };
-            self.compile_node(*finally_block, ctx.with_register(finally_result_register))
-        } else {
-            Ok(result)
+            self.compile_node(*finally_block, ctx.with_register(finally_result_register))?;
         }
+
+        Ok(result)
     }
 
     fn compile_unary_op(
